@@ -1,34 +1,21 @@
-/-
-  WS.Driver.Ops — op dispatch.  Arguments: decimal numbers, hex strings (`-` = empty),
-  or `gen:<len>:<seed>` for generated payloads.
--/
-import WS.Base.Bytes
-import WS.Spec.Unicode
-import WS.Model.Utf8
+/- WS.Driver.Ops — op dispatch over the op groups. -/
+import WS.Driver.OpsCore
+import WS.Driver.OpsH1
+import WS.Driver.OpsH2
+import WS.Driver.OpsApp
 namespace WS.Driver
-open WS
-
-def parseBytes (s : String) : Option Bytes :=
-  if s == "-" then some []
-  else if s.startsWith "gen:" then
-    match (s.drop 4).toString.splitOn ":" with
-    | [l, sd] => match l.toNat?, sd.toNat? with
-      | some l, some sd => some (genBytes l sd)
-      | _, _ => none
-    | _ => none
-  else ofHex s
-
-def b2s (b : Bool) : String := if b then "1" else "0"
 
 def dispatch (line : String) : String :=
-  match line.splitOn " " with
-  | ["ping"] => "pong"
-  | ["m-utf8", h] => match parseBytes h with
-    | some bs => b2s (Model.validateUtf8 bs)
-    | none => "bad-arg"
-  | ["s-utf8", h] => match parseBytes h with
-    | some bs => b2s (Spec.wellFormed bs)
-    | none => "bad-arg"
-  | _ => "bad-op"
+  let args := line.splitOn " "
+  if args == ["ping"] then "pong" else
+  match Core.ops args with
+  | some r => r
+  | none => match H1.ops args with
+    | some r => r
+    | none => match H2.ops args with
+      | some r => r
+      | none => match App.ops args with
+        | some r => r
+        | none => "bad-op"
 
 end WS.Driver
